@@ -211,6 +211,17 @@ pub fn set_flush_pending(net: &NetRef, ep: usize, n: u8) {
 }
 
 impl MemWs {
+    /// Put a message on the wire without waking the receiver: the bytes sit in the socket and are only
+    /// noticed when the receiving task is polled for another reason (an executor that was busy).
+    pub fn send_without_wake(&mut self, item: Message) {
+        let e = self.ep as usize;
+        let mut n = self.net.lock().unwrap();
+        self.sh.log(Ev::Sent { ep: self.ep, m: Wm::of(&item) });
+        let l = &mut n.links[e];
+        l.q.push_back(item);
+        l.sent += 1;
+    }
+
     fn jit(&self, cx: &mut Context<'_>) -> bool {
         if self.jitter && self.sh.skip() {
             cx.waker().wake_by_ref();
